@@ -403,6 +403,10 @@ def _shared_tables_not_written(ctx):
     from .c20 import r3_self_array_writes, IO_TABLE_MODULES
     r3_self_array_writes(ctx, IO_TABLE_MODULES)   # index tables are shared between a table and its selections: never written in place
 
+def _late_bound_constants(ctx):
+    from .c05 import r7_late_bound_constants
+    r7_late_bound_constants(ctx)   # format constants are read through cls / self so that subclass formats keep their own
+
 RULES = [
     ("C04-R6", r6_lazy_derivations),
     ("C04-R1", r1_pass_through),
@@ -417,4 +421,5 @@ RULES = [
     ("C04-T1", _through_time),
     ("C04-R11", _lazy_concatenate),
     ("C04-R12", _shared_tables_not_written),
+    ("C04-R13", _late_bound_constants),
 ]
